@@ -126,6 +126,30 @@ def check_fresh(case, stats):
     if proj_ids(pickles) != proj_ids(ref):
         raise Violation(case, "pickle / pickle-step ids %r, canonical order (steps before their pickle) gives %r" % (proj_ids(pickles)[:4], proj_ids(ref)[:4]))
     integrity(case, doc, pickles)
+    # a caller-supplied generator that is a subclass with its own numbering: every id of AST and pickles comes from it, in the same order
+    class Prefixed(gh.IdGenerator):
+        def __init__(self):
+            super().__init__()
+            self.n = 0
+
+        def get_next_id(self):
+            self.n += 1
+            return "id-%d" % (self.n * 3)
+    g = Prefixed()
+    r2 = gh.parse(text, dflt, builder=gh.AstBuilder(g))
+    if r2[0] == "ok":
+        d2 = dict(r2[1], uri=URI)
+        p2 = gh.Compiler(g).compile(d2)
+        ren = lambda x: (lambda v: "id-%d" % ((int(v) + 1) * 3))
+        def rename(x):
+            if isinstance(x, dict):
+                return {k: ("id-%d" % ((int(v) + 1) * 3) if k in ("id", "astNodeId") else ["id-%d" % ((int(i) + 1) * 3) for i in v] if k == "astNodeIds" else rename(v)) for k, v in x.items()}
+            if isinstance(x, list):
+                return [rename(v) for v in x]
+            return x
+        if d2 != rename(doc) or p2 != rename(pickles):
+            raise Violation(case, "with a generator subclass that numbers differently, ids are not simply the renamed ids of the standard run: %s" % (
+                diff_text([d2, p2], [rename(doc), rename(pickles)], "subclass run", "renamed standard run")))
 
 
 def unit_fresh(a):
@@ -232,8 +256,20 @@ def check_history(case, stats):
         stats.label("excluded_known_F1")
         return
     if case["api"] == "stream":
-        ev = gh.GherkinEvents(gh.GherkinEvents.Options(True, True, True))
-        run = lambda t: run_stream(ev, t)
+        late = case.get("late_pickles")
+        ev = gh.GherkinEvents(gh.GherkinEvents.Options(True, True, late is None))
+        counter = [0]
+
+        def run(t):
+            # the options object is the caller's: switching pickles on for the later sources of a running stream
+            if late is not None and counter[0] == late:
+                ev.options.print_pickles = True
+            counter[0] += 1
+            out = run_stream(ev, t)
+            if out is not None and not ev.options.print_pickles:
+                # same document as a fresh stream would give it, minus the pickles
+                return out
+            return out
         fresh = lambda t: run_stream(gh.GherkinEvents(gh.GherkinEvents.Options(True, True, True)), t)
     else:
         g = gh.IdGenerator()
@@ -268,6 +304,8 @@ def check_history(case, stats):
             if sorted(ids) != list(range(base, base + len(ids))):
                 raise Violation(case, "ids of document #%d are not contiguous: %r" % (i, sorted(ids)[:30]))
             f = fresh(t)
+            if case["api"] == "stream" and case.get("late_pickles") is not None and not any("pickle" in e for e in out):
+                f = [e for e in f if "pickle" not in e]
             if shift_ids(out, base) != f:
                 raise Violation(case, "document #%d of the history differs from a fresh run after subtracting the id offset %d, %s" % (i, base, diff_text(shift_ids(out, base), f, "history", "fresh")))
     nt = any(outcomes[i] == "rej" and "acc" in outcomes[:i] and "acc" in outcomes[i + 1:] for i in range(len(outcomes)))
@@ -284,7 +322,8 @@ def g_history(s):
                                    "@t\nFeature: f\n @u\n Scenario: s\n  Given x\n   \"\"\"\n   open"]))
         else:
             texts.append(noisy.g_noisy(s)[0])
-    return {"sub": "history", "api": s.choice(["stream", "pair"]), "texts": texts, "new_generator_before": [i for i in range(1, n) if s.int(4) == 0]}
+    return {"sub": "history", "api": s.choice(["stream", "pair"]), "texts": texts, "new_generator_before": [i for i in range(1, n) if s.int(4) == 0],
+            "late_pickles": (s.int(n) if s.int(3) == 0 else None)}
 
 
 def unit_history(a):
